@@ -30,14 +30,13 @@ TOL = 1e-9
 F3_MSG = "'Dim' object has no attribute 'classical'"
 
 # violation label of the model -> signature of the finding on /repo
+# (F11 measure_left_of_bit, F26 override_destructive, F28 bit_swap_moves_ps are fixed in /repo: the
+#  model has no such label any more, a recurrence would surface as an unmasked `to_tk:meaning`)
 TO_TK_SIG = {
-    "measure_left_of_bit": "to_tk:measure_left_of_bit",
-    "bits_left_of_bit": "to_tk:bits_left_of_bit",
-    "discard_bit": "to_tk:discard_bit",
-    "stale_bits": "to_tk:stale_bits",
-    "override_destructive": "to_tk:override_destructive",
-    "override_after_pp": "to_tk:override_after_pp",
-    "bit_swap_moves_ps": "to_tk:bit_swap_moves_ps",
+    "bits_left_of_bit": "to_tk:bits_left_of_bit",       # F23
+    "discard_bit": "to_tk:discard_bit",                 # F24
+    "stale_bits": "to_tk:stale_bits",                   # F25
+    "override_after_pp": "to_tk:override_after_pp",     # F27
 }
 
 
@@ -109,8 +108,6 @@ def from_tk_sig(tk_circ, exc=None, label="-"):
         if "SWAP" in names:
             return "from_tk:swap_not_importable"                # SWAP.name is 'Swap(qubit, qubit)'
         return "from_tk:raises:notimpl"
-    if label == "bit_swap_moves_ps":
-        return "to_tk:bit_swap_moves_ps"    # the export post-selects a bit that is never measured
     measured = [c[3][0] for c in cmds if c[0] == "Measure" and c[3][0] not in ps]
     if any(any(p < b for p in ps) for b in measured):
         # tk.py:313-323 indexes the bits with the raw tket index although n_bits (tk.py:273)
@@ -135,10 +132,10 @@ def run(tier, seed, replay=None):
                 "right end of its register list, or a swap, or a non-empty post-processing; plus random "
                 "pytket circuits over H S T X Y Z CX CZ SWAP Rx Rz CRz Measure")
     rep.partial = [
-        "to_tk_refines is proved inside the fragment delimited by `violation` (no Measure left of a bit "
-        "wire, no Bits left of a non-post-selected register, no Discard of bits, no override_bits Measure "
-        "that is destructive or follows classical post-processing, no bit swap by renaming while bit 0 is "
-        "post-selected); each excluded shape has a decided counter-witness and is a finding on /repo",
+        "to_tk_refines is proved inside the fragment delimited by `violation` (no Bits left of a "
+        "non-post-selected register, no Discard of bits, no override_bits Measure after classical "
+        "post-processing); each excluded shape has a decided counter-witness and is a known finding on "
+        "/repo (F23, F24, F25, F27)",
         "meaning of tket ops, pytket's rename_units/add_blank_wires, from_tk and the backend path are "
         "outside the model: they rest on the oracle of this check",
     ]
@@ -227,37 +224,41 @@ def nontrivial(spec, fields):
 
 # the counter-witnesses of lean/Props/C13.lean and of notes/finding_*.md, replayed on every run
 WITNESSES = [
-    # F11  Ket(1, 0) >> Id(1) @ Measure() >> Measure() @ Id(bit)
+    # F11 (fixed)  Ket(1, 0) >> Id(1) @ Measure() >> Measure() @ Id(bit)
     ("", [(("ket", (1, 0)), 0), (("measure", 1, 1, 0), 1), (("measure", 1, 1, 0), 0)]),
-    # Ket(1) >> Measure() >> Bits(0) @ Id(bit)
+    # F23  Ket(1) >> Measure() >> Bits(0) @ Id(bit)
     ("", [(("ket", (1,)), 0), (("measure", 1, 1, 0), 0), (("bits", (0,), 0), 0)]),
-    # Ket(1, 0) >> Measure(2) >> Discard(bit) @ Id(bit)
+    # F24  Ket(1, 0) >> Measure(2) >> Discard(bit) @ Id(bit)
     ("", [(("ket", (1, 0)), 0), (("measure", 2, 1, 0), 0), (("discard", "b"), 0)]),
-    # Ket(1, 0) >> Id(1) @ Bits(0) @ Id(1) >> Measure(1, override_bits=True) @ Id(1) >> Id(bit) @ X >> Id(bit) @ Measure()
+    # F26 (fixed)  Ket(1, 0) >> Id(1) @ Bits(0) @ Id(1) >> Measure(1, override_bits=True) @ Id(1) >> Id(bit) @ X >> Id(bit) @ Measure()
     ("", [(("ket", (1, 0)), 0), (("bits", (0,), 0), 1), (("measure", 1, 1, 1), 0), (("gate", "X"), 1),
           (("measure", 1, 1, 0), 1)]),
-    # Ket(0, 1, 0) >> Bra(0) @ Id(2) >> Measure() @ Id(1) >> Id(bit) @ Measure() >> Swap(bit, bit)
+    # F28 (fixed)  Ket(0, 1, 0) >> Bra(0) @ Id(2) >> Measure() @ Id(1) >> Id(bit) @ Measure() >> Swap(bit, bit)
     ("", [(("ket", (0, 1, 0)), 0), (("bra", (0,)), 0), (("measure", 1, 1, 0), 0), (("measure", 1, 1, 0), 1),
           (("swap", "b", "b"), 0)]),
-    # Ket(1) >> Measure() >> Bits(1)[::-1] >> Ket(1) >> Measure()
+    # F25  Bits(0) >> FAN >> Id(bit @ bit) @ Bits(0)   (IndexError)
+    ("", [(("bits", (0,), 0), 0), (("cgate", "FAN"), 0), (("bits", (0,), 0), 2)]),
+    # F25  Ket(1, 1) >> Measure(2) >> XOR >> Id(bit) @ Bits(0)   (XOR reads the blank register)
+    ("", [(("ket", (1, 1)), 0), (("measure", 2, 1, 0), 0), (("cgate", "XOR"), 0), (("bits", (0,), 0), 1)]),
+    # (raised AxiomError before fix F11)  Ket(1) >> Measure() >> Bits(1)[::-1] >> Ket(1) >> Measure()
     ("", [(("ket", (1,)), 0), (("measure", 1, 1, 0), 0), (("bits", (1,), 1), 0), (("ket", (1,)), 0),
           (("measure", 1, 1, 0), 0)]),
-    # Ket(0, 0, 1) >> Measure() @ Measure() @ Id(1) >> NOT @ Id(bit @ qubit) >> Swap(bit, bit) @ Id(1)
+    # F27  Ket(0, 0, 1) >> Measure() @ Measure() @ Id(1) >> NOT @ Id(bit @ qubit) >> Swap(bit, bit) @ Id(1)
     #   >> Id(bit) @ Swap(bit, qubit) >> Id(bit) @ Measure(1, destructive=False, override_bits=True)
     ("", [(("ket", (0, 0, 1)), 0), (("measure", 1, 1, 0), 0), (("measure", 1, 1, 0), 1), (("cgate", "NOT"), 0),
           (("swap", "b", "b"), 0), (("swap", "b", "q"), 1), (("measure", 1, 0, 1), 1)]),
-    # Ket(0, 0) >> H @ H >> Id(1) @ S >> Controlled(Y) >> H @ Id(1) >> Measure() @ Discard()
+    # F17 (fixed, C11)  Ket(0, 0) >> H @ H >> Id(1) @ S >> Controlled(Y) >> H @ Id(1) >> Measure() @ Discard()
     ("", [(("ket", (0, 0)), 0), (("gate", "H"), 0), (("gate", "H"), 1), (("gate", "S"), 1), (("ctrl", "Y"), 0),
           (("gate", "H"), 0), (("measure", 1, 1, 0), 0), (("discard", "q"), 1)]),
-    # F12  Ket(1, 1, 0) >> Bra(1) @ Id(2) >> Measure() @ Id(1)
+    # F12 (fixed)  Ket(1, 1, 0) >> Bra(1) @ Id(2) >> Measure() @ Id(1)
     ("", [(("ket", (1, 1, 0)), 0), (("bra", (1,)), 0), (("measure", 1, 1, 0), 0)]),
-    # F13  Ket(1, 1) >> Bra(1) @ Id(1) >> Id(1) @ Ket(0) >> Measure(2)
+    # F13 (fixed)  Ket(1, 1) >> Bra(1) @ Id(1) >> Id(1) @ Ket(0) >> Measure(2)
     ("", [(("ket", (1, 1)), 0), (("bra", (1,)), 0), (("ket", (0,)), 1), (("measure", 2, 1, 0), 0)]),
-    # Ket(1) >> Measure() >> NOT   (get_counts through a backend)
+    # F29 (fixed)  Ket(1) >> Measure() >> NOT   (get_counts through a backend)
     ("", [(("ket", (1,)), 0), (("measure", 1, 1, 0), 0), (("cgate", "NOT"), 0)]),
-    # Controlled(H)
+    # F31 (fixed)  Controlled(H)
     ("qq", [(("ctrl", "H"), 0)]),
-    # Ket(1, 0) >> CX >> Id(1) @ Ket(0, 0) @ Id(1) >> Discard(qubit ** 3) @ Measure()   (export has CX(0, 3))
+    # F30 (fixed)  Ket(1, 0) >> CX >> Id(1) @ Ket(0, 0) @ Id(1) >> Discard(qubit ** 3) @ Measure()   (export has CX(0, 3))
     ("", [(("ket", (1, 0)), 0), (("gate", "CX"), 0), (("ket", (0, 0)), 1), (("discard", "qqq"), 0),
           (("measure", 1, 1, 0), 0)]),
 ]
@@ -335,8 +336,6 @@ def export_stream(rep, rng, drv, budget, Circuit):
         e2e_ok = close(got, ref)
         if not e2e_ok:
             sig = TO_TK_SIG.get(label, "to_tk:meaning")
-            if label == "-" and any(b == ("ctrl", "Y") for b, _ in spec[1]):
-                sig = "to_tk:controlled_y_phase"    # Controlled(Y) is controlled-(-Y) in discopy (gates.py:561)
             rep.fail(sig, case, "exported %r means %s, the circuit evaluates to %s (tolerance %g)" % (
                 t, show(got), show(ref), TOL))
         rep.count("e2e:" + ("ok" if e2e_ok else "fail"))
@@ -369,8 +368,6 @@ def export_stream(rep, rng, drv, budget, Circuit):
 def backend_checks(rep, c, t, ref, e2e_ok, label, case):
     be = T.ExactBackend()
     sig = TO_TK_SIG.get(label, "to_tk:meaning")
-    if label == "-" and "CY(" in repr(t):
-        sig = "to_tk:controlled_y_phase"
     try:
         res = c.eval(be)
         if not close(res.array, ref):
@@ -386,14 +383,14 @@ def backend_checks(rep, c, t, ref, e2e_ok, label, case):
         cnt = c.get_counts(be)
         want = counts_of(ref)
         if not counts_close(cnt, want):
-            if len(t.post_processing.boxes):
+            if not e2e_ok:
+                rep.fail(sig, case, "get_counts(backend) differs from local evaluation (export is wrong)")
+            elif len(t.post_processing.boxes):     # F29 (fixed): the post-processing was not applied
                 rep.fail("backend:get_counts_skips_post_processing", case,
                          "get_counts(backend) = %s, local evaluation = %s" % (sorted(cnt.items()), sorted(want.items())))
-            elif e2e_ok:
+            else:
                 rep.fail("backend:get_counts", case,
                          "get_counts(backend) = %s, local evaluation = %s" % (sorted(cnt.items()), sorted(want.items())))
-            else:
-                rep.fail(sig, case, "get_counts(backend) differs from local evaluation (export is wrong)")
         rep.count("backend_counts_checked")
     except Exception as exc:
         rep.fail("backend:get_counts_raises:" + err_class(exc), case, repr(exc)[:200])
@@ -431,7 +428,7 @@ def import_stream(rep, rng, n, Circuit, max_units):
                 rep.fail("from_tk:unitary" if sig == "from_tk:value" else sig, case,
                          "imported circuit computes another channel than pytket's unitary")
             elif not close(u, want_u):
-                rep.count("import_global_phase_differs")   # discopy's Y acts as -Y (gates.py:561)
+                rep.count("import_global_phase_differs")   # was non-zero before the Y fix (F17)
             continue
         want = T.exported_distribution(T_upgrade(circ))
         try:
